@@ -532,6 +532,12 @@ MUTANTS = [
            lambda f, t: set_test(f, lambda e: u(e) == "self.idle", "False")),
     Mutant("C18", "worker-event-not-cleared", "C18-R4", ST, "Worker.run",
            lambda f, t: delete_stmt(f, lambda s: u(s) == "self.job_available.clear()")),
+    Mutant("C09", "session-instance-not-remembered", "C09-R3", S, "Daemon._getInstance",
+           lambda f, t: delete_stmt(f, lambda s: u(s) == "conn.pyroInstances[clazz] = instance")),
+    Mutant("C07", "error-reply-without-traceback", "C07-R3", S, "Daemon._sendExceptionResponse",
+           lambda f, t: delete_stmt(f, lambda s: u(s) == "exc_value._pyroTraceback = tbinfo", count=1)),
+    Mutant("C07", "error-reply-not-sent", "C07-R3", S, "Daemon._sendExceptionResponse",
+           lambda f, t: delete_stmt(f, lambda s: u(s) == "connection.send(msg.data)")),
     Mutant("C01", "marshal-call-envelope-swapped", "C01-R7", SER, "MarshalSerializer.dumpsCall",
            lambda f, t: replace_expr(f, lambda e: u(e) == "(obj, method, vargs, kwargs)", "(obj, method, kwargs, vargs)")),
     Mutant("C01", "json-call-envelope-key-mismatch", "C01-R7", SER, "JsonSerializer.loadsCall",
